@@ -154,6 +154,39 @@ def mir_static(cases, nshards=None):
     return res
 
 
+def mir_traces(cases, nshards=None):
+    """per-sample state access trace, cursor and global storage words of the Lean MIR run (`drv_mir`, mode `trace`), in the
+    record format of harness/src/bin/c05.rs.  Returns id -> `ok rec|rec|…` | `unsupported …` | `stuck …` | status of the dump."""
+    nshards = nshards or min(NCPU, max(1, len(cases) // 50))
+    shards = [cases[i::nshards] for i in range(nshards)]
+
+    def work(sh):
+        out = {}
+        if not sh:
+            return out
+        byid = {c["id"]: c for c in sh}
+        inp = "".join(json.dumps({"id": c["id"], "src": c["src"]}) + "\n" for c in sh)
+        p = run([os.path.join(BIN, "mir")], input=inp, timeout=3600)
+        lines = []
+        for l in p.stdout.splitlines():
+            f = l.split("\t")
+            if len(f) >= 3 and f[1] == "ok":
+                c = byid[f[0]]
+                lines.append(f"{f[0]}\ttrace\t{c['times']}\t{coregen.inputs_field(c['inputs'])}\t{f[2]}\n")
+            elif len(f) >= 2:
+                out[f[0]] = f[1]
+        q = run([os.path.join(LEANBIN, "drv_mir")], input="".join(lines), timeout=600)
+        for l in q.stdout.splitlines():
+            f = l.split("\t")
+            if len(f) >= 2:
+                out[f[0]] = f[1]
+        return out
+    res = {}
+    for r in parallel(shards, work, nproc=nshards):
+        res.update(r)
+    return res
+
+
 def mir_class(vm, wasm, model, mir):
     """cell of the agreement matrix for one program (raw outcome strings; wasm / model may be None or `-`)"""
     v = norm_impl(vm) if vm and vm.startswith("ok") else None
